@@ -18,14 +18,24 @@ PROPS = {
               'are compared with FIPS 186-4 / RFC 8017 reference models (ECDSA, RSA) or with the metamorphic rule (unchanged '
               'values accept, altered authenticated values reject, legal malleations accept); distinct = (scheme, fault set, '
               'verdict, expectation, mode)'),
-        stages=[('protosim', 'A', 14000, 200, 400000, 2400, {})]),
+        stages=[('protosim', 'A', 14000, 200, 400000, 2400, {}),
+                # the other selectable padding schemes (RSA sessions only) and, in the thorough tier, the 381-bit
+                # pairing-friendly curve (a G1 with a cofactor) and RSA without CRT
+                ('protosim', 'Apkcs1', 1500, 60, 60000, 600, {}),
+                ('protosim', 'Abasic', 1500, 60, 60000, 600, {}),
+                ('protosim', 'A381', 0, 0, 40000, 1200, {}),
+                ('protosim', 'Anocrt', 0, 0, 40000, 600, {})]),
     'C06': dict(
         level='exploration',
         rule=('protosim: seeded runs of interleaved encryption / key-agreement / sharing sessions over a faulty wire; outputs '
               'are compared with reference models (RFC 8017 OAEP, KDF2 over python point arithmetic, integer sums mod n, '
               'Lagrange interpolation) evaluated on what was actually delivered; distinct = (scheme, fault set, outcome, '
               'parameter class)'),
-        stages=[('protosim', 'A', 14000, 200, 400000, 2400, {})]),
+        stages=[('protosim', 'A', 14000, 200, 400000, 2400, {}),
+                ('protosim', 'Apkcs1', 1500, 60, 60000, 600, {}),
+                ('protosim', 'Abasic', 1500, 60, 60000, 600, {}),
+                ('protosim', 'A381', 0, 0, 40000, 1200, {}),
+                ('protosim', 'Anocrt', 0, 0, 40000, 600, {})]),
     'C07': dict(
         level='exploration',
         rule=('codecsim: seeded runs of ENC/FAULT/DEC/CAPW/BNSTR/RDSTR ops over a faulty store; every decode of a damaged '
@@ -34,6 +44,8 @@ PROPS = {
               'for damaged decodes plus (type, format, generator) for clean round trips'),
         stages=[
             ('codecsim', 'A', 30000, 150, 1500000, 1800, {}),
+            # thorough tier only: BLS12-381 (other field size, tags, twist)
+            ('codecsim', 'A381', 0, 0, 400000, 900, {}),
         ]),
     'C08': dict(
         level='fault_enumeration',
@@ -94,6 +106,8 @@ def cmd_check(prop, tier, seed):
     for (ename, config, qn, qs, tn, ts, opts) in spec['stages']:
         eng = load_engine(ename)
         n, secs = (qn, qs) if tier == 'quick' else (tn, ts)
+        if n == 0:
+            continue                    # stage not part of this tier
         n = max(1, int(n * scale))
         try:
             tot = core.run_engine(eng, config, prop, seed, tier, n, secs * max(scale, 1.0), opts=dict(opts, prop=prop))
